@@ -275,8 +275,10 @@ func judge(r *vkit.R, seq sequence, fs []fault, res runResult) {
 		// condition that an operation concurrent with a flush touched is attributed to that concurrency, whatever fault
 		// was injected elsewhere in the run.
 		sig := fmt.Sprintf("C19/%s/%s/", seq.Mode, f.Oracle)
-		if _, inner, ok := seq.concurrentOn(f.Name); ok {
-			sig += inner + "-concurrent-with-flush" // flush, periodic tick and stop share the flush code
+		if _, inner, ok := seq.concurrentOn(f.Name); ok && (f.Oracle == "deleted-condition-persists" || f.Oracle == "acknowledged-condition-not-persisted") {
+			// flush, periodic tick and stop share the flush code, in both modes
+			// (the oracle that notices it depends on what else happens to the condition afterwards: not part of the signature)
+			sig = fmt.Sprintf("C19/flush-not-atomic/%s-concurrent-with-flush", inner)
 		} else {
 			sig += "fault=" + faultClass(k, res.HitVerb)
 			if k != noFault {
